@@ -60,6 +60,11 @@ class Orphanage(ElabPass):
                 msg += f"Add it again under its new name instead."
                 self.fail(msg)
 
+        # And, Signals, for having kept a valid width. (The constructor checks it; assignments afterwards do not.)
+        for sig in list(module.ports.values()) + list(module.signals.values()):
+            if not isinstance(sig.width, int) or isinstance(sig.width, bool) or sig.width < 1:
+                self.fail(f"Invalid width {sig.width!r} of {sig} in Module `{module.name}`: widths are positive integers")
+
         # Check instance connections, which are not in the module namespace.
         instlike = (
             list(module.instances.values())
